@@ -155,3 +155,12 @@ PROPS["C18"] = dict(
     trusted=STUBS_ADDSUB + ["case-split stub: BigUint::bits pinned to the query's concrete bit length K under assume(real bits == K)",
                             "contract stub (range harnesses): RandBigInt::gen_biguint_below -> arbitrary canonical value below the bound (the real function is decided by c18_*_below_*)", "stub: Vec::shrink_to_fit -> no-op"],
 )
+
+PROPS["C06"] = dict(
+    inject=[("src/bigint/convert.rs", "c06/parse.rs")],
+    kani=[dict(filter_q="c06_q_", filter_t=["c06_q_", "c06_t_"], jobs=14, timeout_q=240, timeout_t=900)],
+    functions=[],
+    bounds_quick="",
+    outside="",
+    trusted=[],
+)
